@@ -129,7 +129,17 @@ pub fn run(ctx: &'static Ctx) {
                 }
                 crate::util::ser(&b)
             });
-            for (how, got) in [("PackageBuilder::default()", via_default), ("a builder reused after core::mem::take", via_take)] {
+            // a builder that is serialised after every add_element (a snapshot, a size probe) and then goes on
+            let via_observed = catch(|| {
+                let mut b = PackageBuilder::new();
+                let _ = crate::util::ser(&b);
+                for k in &kids {
+                    b.add_element(k);
+                    let _ = crate::util::ser(&b);
+                }
+                crate::util::ser(&b)
+            });
+            for (how, got) in [("PackageBuilder::default()", via_default), ("a builder reused after core::mem::take", via_take), ("a builder serialised after every add_element", via_observed)] {
                 extra += 1;
                 ctx.tr(1);
                 if got != want {
